@@ -224,13 +224,38 @@ theorem map_text_is_lowlevel_map (o : Oracle) (a : WArr) (frags : List Frag) (ou
     mapUrl o a out sm = (if a.normPaths then o.normrel (nameOr a out) (nameOr a sm) else nameOr a sm) := by
   constructor <;> simp [mapText, mapUrl]
 
+/-- **Finding KF-18a (the "valid map link" clause fails for relative stream names).**  `utils.normrelpath`
+only relativises when BOTH names are absolute; otherwise the default `sourceMappingURL` is the map stream's
+name verbatim — a path relative to the current directory, not to the output file — and likewise `file` and
+`sources` inside the map are the names verbatim (not relative to the map).  Output `build/app.js` + map
+`build/app.js.map` gives the URL `build/app.js.map`, which a consumer resolves to `build/build/app.js.map`
+(see the `example` below; replayed on the implementation by the check). -/
+theorem url_verbatim_unless_both_absolute (o : Oracle) (a : WArr) (out sm : Sid)
+    (h : (isAbs (nameOr a out) && isAbs (nameOr a sm)) = false) :
+    mapUrl o a out sm = nameOr a sm ∧
+    (a.normPaths = true → mapText o a frags out sm =
+      o.serialise (nameOr a out) (o.smWrite a.normMappings frags).mappings
+        ((o.smWrite a.normMappings frags).sources.map (o.normrel (nameOr a sm)))
+        (o.smWrite a.normMappings frags).names) := by
+  have h' : (isAbs (nameOr a sm) && isAbs (nameOr a out)) = false := by
+    rw [Bool.and_comm]; exact h
+  constructor
+  · unfold mapUrl Oracle.normrel
+    simp [h]
+  · intro hn
+    unfold mapText
+    simp only [hn, if_true]
+    congr 1
+    unfold Oracle.normrel
+    simp [h']
+
 /-! ### non-vacuity: concrete arrangements and fault plans -/
 
 namespace Example
 
 /-- a cheap interpretation of the uninterpreted functions (no string computation, so that `decide` evaluates) -/
 def orc : Oracle where
-  normrel _ t := t
+  relpath _ t := t
   smWrite _ _ := { mappings := "AAAA", sources := ["src.js"], names := "[]" }
   serialise f _ _ _ := f
   b64 _ t := t
@@ -285,6 +310,17 @@ example : openedOf (runWrite orc planClose arr).2.trace = [1, 2] ∧
 example : (runWrite orc (fun p k => if p = .close 1 then some synErr else planWrite p k) arr).1 = .error synErr ∧
     faultsOf (runWrite orc (fun p k => if p = .close 1 then some synErr else planWrite p k) arr).2.trace =
       [(.write 1, ioErr), (.close 1, synErr)] := by decide +kernel
+
+/-- KF-18a witness: relative names in a sub-directory -/
+def arrRel : WArr :=
+  { arr with info := fun s => if s = 1 then { name := some "build/app.js" } else { name := some "build/app.js.map" } }
+
+example (o : Oracle) : mapUrl o arrRel 1 2 = "build/app.js.map" :=
+  (url_verbatim_unless_both_absolute (frags := []) o arrRel 1 2 (by decide +kernel)).1
+
+example (o : Oracle) : urlComment o arrRel 1 2 = ["\n//# sourceMappingURL=", "build/app.js.map", "\n"] := by
+  simp only [urlComment, arrRel, arr]
+  rfl
 
 def rarr : RArr := { stream := .factory 0 1, info := fun _ => { name := some "lib/app.js" }, tree := 5 }
 
